@@ -8,6 +8,7 @@ import itertools
 from mc import terms as T, ref, gen
 from mc.enc import fresh
 from mc.run import Result
+from mc.snapshot import vsnap
 from mc.props.c03 import same_node, same_value, shape
 from mc.props.c04 import reach
 
@@ -144,6 +145,7 @@ def check_case(res, rt, r, doc, key):
     res.state(*key)
     case = {"rule": rt, "doc": doc}
     d = fresh(doc)
+    before = vsnap(d)
     want = ref.rule_test(rt, d)
     res.count("transitions")
     sig_tail = "%s|%s" % (shape(rt[1]), cshape(rt[2]))
@@ -179,6 +181,10 @@ def check_case(res, rt, r, doc, key):
                       observed={"valid": got_valid, "tested": got_tested, "n": nf,
                                 "failures": [(p, v) for p, v, _ in got_f]},
                       expected={k: want[k] for k in ("valid", "tested", "failures")})
+        return
+    if vsnap(d) != before:
+        res.violation("document-changed:%s" % sig_tail, "testing %s changed the document %r -> %r" % (T.show(rt), doc, d), case,
+                      observed=d, expected=doc)
         return
     res.count("validated")
     if want["tested"]:
